@@ -606,7 +606,7 @@ pub fn replay(args: &Args, path: &str) -> i32 {
     report.set("evaluations", json!(1));
     report.set("distinct_nontrivial", json!(0));
     report.set("rule", json!("replay of one stored case"));
-    report.finish()
+    finish_replay(&report)
 }
 
 pub fn run(args: &Args) -> i32 {
